@@ -271,10 +271,15 @@ def run_group(pid, specdir, g, scratch, tier, stack, want_trace=None):
     # a solver that ran out of memory or was interrupted leaves obligations UNKNOWN / ERROR (and cbmc may still print a partial result
     # list): that is a tool limit, never a verdict
     odd = [r for r in results if r.get('status') not in ('SUCCESS', 'FAILURE')]
-    if odd or 'out of memory' in out.lower() or 'out of memory' in (err or '').lower():
+    oom = 'out of memory' in out.lower() or 'out of memory' in (err or '').lower()
+    hard = [r for r in odd if r.get('status') != 'UNKNOWN']
+    if hard or oom or (odd and not any(r.get('status') == 'FAILURE' for r in results)):
         res['error'] = 'cbmc left %d obligations without a verdict (%s)%s' % (len(odd), ','.join(sorted(set(str(r.get('status')) for r in odd))) or 'partial run',
-                                                                           '; solver out of memory' if 'out of memory' in (out + (err or '')).lower() else '')
+                                                                           '; solver out of memory' if oom else '')
         return res
+    # (cbmc marks obligations UNKNOWN when an earlier failure on every path to them — e.g. a dereference of freed memory — makes their
+    #  status moot: the failures it did report stand, the UNKNOWN ones are simply absent from the ledger)
+    results = [r for r in results if r.get('status') in ('SUCCESS', 'FAILURE')]
     for r in results:
         pname, desc = r.get('property', ''), r.get('description', '')
         cls = classify(pname, desc, name)
